@@ -210,6 +210,13 @@ func (p *parser) afterBracket() Frag {
 		}
 	case ':':
 		return p.readSlice(0)
+	case '.':
+		// [..] is the bracket notation of a descent as written by BracketString().
+		if p.pos+1 < len(p.buf) && p.buf[p.pos] == '.' && p.buf[p.pos+1] == ']' {
+			p.pos += 2
+			return Descent('.')
+		}
+		p.raise("invalid bracket fragment")
 	case '?':
 		return p.readFilter()
 	case '(':
